@@ -1584,10 +1584,24 @@ class Data(Container, NetCDFHDF5, Files, core.Data):
 
         if fill_values:
             array = self.array
-            mask = array == fill_values[0]
+            for fill_value in fill_values:
+                try:
+                    fill_value_is_nan = bool(np.isnan(fill_value))
+                except (TypeError, ValueError):
+                    # isnan fails on some data types
+                    fill_value_is_nan = False
 
-            for fill_value in fill_values[1:]:
-                mask |= array == fill_value
+                if fill_value_is_nan and array.dtype.kind in "fc":
+                    # A NaN fill value matches NaN data, as it does
+                    # when the masking is applied at read time
+                    fv_mask = np.isnan(array)
+                else:
+                    fv_mask = array == fill_value
+
+                if mask is None:
+                    mask = fv_mask
+                else:
+                    mask |= fv_mask
 
         if valid_min is not None:
             if mask is None:
